@@ -6,6 +6,8 @@ Oracle: parse(str(parse(t))) is structurally equal to parse(t) (node classes, fi
 and evaluates identically (textx.scoping.rrel.find) on a fixed family of models.
 """
 
+import re
+
 from mc.core import Unit, watchdog
 
 ID = "C12"
@@ -165,11 +167,40 @@ def evaluate(tree, flagged_proxy):
     return out
 
 
+FIXED = re.compile(r"""'((?:\\'|[^'])*)'~|"((?:\\"|[^"])*)"~""")
+
+
+def fixed_in_text(text):
+    return [a if m.group(0)[0] == "'" else b for m in FIXED.finditer(text) for a, b in [m.groups()]]
+
+
+def fixed_in_struct(s, out=None):
+    out = [] if out is None else out
+    if s[0] == "nav":
+        if s[3] is not None:
+            out.append(s[3])
+    else:
+        for x in s[1:]:
+            if isinstance(x, tuple):
+                fixed_in_struct(x, out)
+    return out
+
+
 def run_case(text, with_eval=True):
     from textx.scoping.rrel import parse
 
+    # parse history: a look-alike expression (same text without the blanks) is parsed first; the tree of `text` must still
+    # carry the fixed names exactly as written in `text` (oracle independent of the parser: the generator's own atoms)
+    alike = text.replace(" ", "")
+    if alike != text:
+        ta = parse(alike)
+        if fixed_in_struct(struct(ta)) != fixed_in_text(alike):
+            return False, {"text": alike, "printed": str(ta), "fixed_names_expected": fixed_in_text(alike), "fixed_names_parsed": fixed_in_struct(struct(ta))}
     t1 = parse(text)
     s1 = struct(t1)
+    if fixed_in_struct(s1) != fixed_in_text(text):
+        return False, {"text": text, "printed": str(t1), "fixed_names_expected": fixed_in_text(text), "fixed_names_parsed": fixed_in_struct(s1),
+                       "parsed_before": alike if alike != text else None}
     printed = str(t1)
     try:
         t2 = parse(printed)
